@@ -26,6 +26,12 @@ def gen_store(rng, n=None, adversarial=False):
             e["tags"].append([rng.choice(ADV_NAMES + ["t", "e"]), rng.choice(ADV_VALUES)])
         if rng.random() < 0.08:
             e["tags"].append(["delegation", rng.choice(authors), "kind=1", "00" * 64])
+        if rng.random() < 0.3:
+            # two tags of one name whose values are prefixes / substrings of one another: a prefix scan reaches the event
+            # through one value, the residual matcher then sees the other
+            name = rng.choice(["t", "t", "e", "d"])
+            for v in rng.sample(gen.FAMILY, 2):
+                e["tags"].append([name, v])
         # stores are built without replacement/deletion semantics getting in the way
         evs.append(e)
     return evs
